@@ -245,3 +245,14 @@ def run(ctx, rec):
 
 def replay(w, rec):
     run_case(w["case"], rec)
+
+
+# workloads added after the seventh round of seeded changes (DESIGN section 9): part of the rule of this check
+_RULE_ADDENDUM = 'every third directed case also under zero-padded twin names; narrow NumPy scalar coefficients / exponents'
+_info_base = info
+
+
+def info(tier):  # noqa: F811
+    d = _info_base(tier)
+    d["rule"] = d["rule"] + "; " + _RULE_ADDENDUM
+    return d
